@@ -478,6 +478,16 @@ theorem header_lambda_chain_witness :
 
 /-! ## full_name -/
 
+/-- **The module path is prepended whole, the qualified names appended whole.**  The final `return` of
+`AbstractNameDefinition.get_qualified_names` (operands read from jedi/inference/names.py by the
+translator, which refuses any other statement between the `None` checks and that return) evaluates to
+the concatenation: no component is dropped, repeated or reordered, whatever the spellings - in
+particular when the qualified names start with the last component of the module path
+(`glob.glob`, `datetime.datetime`). -/
+theorem module_join_is_concat (m q : List String) :
+    joinNames JediModel.Gen.C18.moduleJoin m q = m ++ q := by
+  simp [joinNames, joinOperand, JediModel.Gen.C18.moduleJoin]
+
 /-- **full_name_eq_qualname.**  For a `def` / `class` statement `s` all of whose ancestors are
 classes (module or class level), whose name leaf is `i`, in a module whose first name component is
 not a key of `BaseName._mapping`: `full_name` is the module's dotted path followed by `__qualname__`.
@@ -490,10 +500,11 @@ theorem full_name_eq_qualname_partial (p : NProg) (i s : Nat) (l : Leaf) (m : Li
     (hpath : classPath p (p.fuel + 1) s = true)
     (hm : p.modNames = some m) (hmne : m ≠ [])
     (hmap : ∀ x, m.head? = some x → JediModel.Gen.C18.mapping.lookup x = none) :
-    fullNameOfLeaf JediModel.Gen.C18.mapping p i = some (m ++ qualnameOf p s) := by
+    fullNameOfLeaf JediModel.Gen.C18.mapping JediModel.Gen.C18.moduleJoin p i =
+      some (m ++ qualnameOf p s) := by
   unfold fullNameOfLeaf
   rw [hl]
-  simp only [hr, hctx, hm]
+  simp only [hr, hctx, hm, module_join_is_concat]
   have hq : qualnameOf p s =
       (match p.kind (p.pscope s) with
        | .module => [p.sname s]
@@ -521,7 +532,7 @@ theorem full_name_eq_qualname_partial (p : NProg) (i s : Nat) (l : Leaf) (m : Li
       have hf : p.fuel = p.scopes.length + 1 := rfl
       rw [hf]; unfold ctxQual; rw [hpk]
     rw [hc, hq, hpk]
-    simp only [List.append_nil]
+    simp only [List.nil_append]
     rw [applyMapping_unmapped, hname]
     intro x hx
     exact hmap x (hhead _ x hx)
@@ -530,9 +541,8 @@ theorem full_name_eq_qualname_partial (p : NProg) (i s : Nat) (l : Leaf) (m : Li
     have hc := ctxQual_eq_qualname p p.fuel (p.pscope s) hpath.2 (Or.inl hpk)
     rw [hc, hq, hpk]
     simp only
-    rw [applyMapping_unmapped, hname, List.append_assoc]
+    rw [applyMapping_unmapped, hname]
     intro x hx
-    rw [List.append_assoc] at hx
     exact hmap x (hhead _ x hx)
   | function => rw [hpk] at hpath; simp at hpath
   | lambda => rw [hpk] at hpath; simp at hpath
@@ -545,14 +555,80 @@ example : (wOk.leaves[17]?).map (fun l => (l.name, l.role, l.start, l.pscope, l.
       some ("L", .defName 3, ⟨4, 10⟩, 3, false) ∧
     createContext wOk ⟨4, 10⟩ 3 false = wOk.pscope 3 ∧ classPath wOk (wOk.fuel + 1) 3 = true ∧
     wOk.modNames = some ["mod"] ∧ JediModel.Gen.C18.mapping.lookup "mod" = none ∧
-    fullNameOfLeaf JediModel.Gen.C18.mapping wOk 17 = some ["mod", "K", "L"] ∧
+    fullNameOfLeaf JediModel.Gen.C18.mapping JediModel.Gen.C18.moduleJoin wOk 17 = some ["mod", "K", "L"] ∧
     qualnameOf wOk 3 = ["K", "L"] := by decide
+
+/-- **full_name of a context name.**  The same for the names that `get_context`, `parent()` and
+`infer()` hand out (`ValueName`s: the qualified names are the value's, `FunctionAndClassBase` /
+`MethodValue.get_qualified_names`): for a `def` / `class` `s` below classes only, `full_name` is the
+module's dotted path followed by `__qualname__` (`qualname` at the fuel `ctxQual` runs with). -/
+theorem full_name_of_context_eq_qualname_partial (p : NProg) (s : Nat) (m : List String)
+    (hk : p.kind s = .klass ∨ p.kind s = .function)
+    (hpath : classPath p p.fuel s = true)
+    (hm : p.modNames = some m) (hmne : m ≠ [])
+    (hmap : ∀ x, m.head? = some x → JediModel.Gen.C18.mapping.lookup x = none) :
+    fullNameOfScope JediModel.Gen.C18.mapping JediModel.Gen.C18.moduleJoin p s =
+      some (m ++ qualname p p.fuel s) := by
+  have hc := ctxQual_eq_qualname p p.fuel s hpath
+    (by rcases hk with h | h
+        · exact Or.inl h
+        · exact Or.inr (Or.inl h))
+  have hhead : ∀ (q : List String) (x : String), (m ++ q).head? = some x → m.head? = some x := by
+    intro q x hx
+    cases m with
+    | nil => exact absurd rfl hmne
+    | cons a r => simpa using hx
+  unfold fullNameOfScope
+  rcases hk with h | h <;>
+  · simp only [h, hc, hm, module_join_is_concat]
+    rw [applyMapping_unmapped]
+    intro x hx
+    exact hmap x (hhead _ x hx)
+
+open JediModel.Nesting.Witness in
+/-- non-vacuity, and the colliding case: in the module `K.K` (file `K/K.py`) with
+`class K:` / `def K(p): a = ()` / `class K: b = ()` every hypothesis of both theorems holds and the
+repeated spelling is kept at every depth: the class is `K.K.K`, the method and the nested class
+`K.K.K.K`, the name assigned in the method `K.K.K.K.a`; `__qualname__` of the method is `K.K`. -/
+theorem full_name_keeps_repeated_components :
+    classPath wCollide (wCollide.fuel + 1) 1 = true ∧ classPath wCollide (wCollide.fuel + 1) 2 = true ∧
+    classPath wCollide wCollide.fuel 2 = true ∧
+    JediModel.Gen.C18.mapping.lookup "K" = none ∧
+    fullNameOfLeaf JediModel.Gen.C18.mapping JediModel.Gen.C18.moduleJoin wCollide 1 = some ["K", "K", "K"] ∧
+    fullNameOfLeaf JediModel.Gen.C18.mapping JediModel.Gen.C18.moduleJoin wCollide 5 = some ["K", "K", "K", "K"] ∧
+    fullNameOfLeaf JediModel.Gen.C18.mapping JediModel.Gen.C18.moduleJoin wCollide 17 = some ["K", "K", "K", "K"] ∧
+    fullNameOfLeaf JediModel.Gen.C18.mapping JediModel.Gen.C18.moduleJoin wCollide 11 = some ["K", "K", "K", "K", "a"] ∧
+    fullNameOfScope JediModel.Gen.C18.mapping JediModel.Gen.C18.moduleJoin wCollide 1 = some ["K", "K", "K"] ∧
+    fullNameOfScope JediModel.Gen.C18.mapping JediModel.Gen.C18.moduleJoin wCollide 2 = some ["K", "K", "K", "K"] ∧
+    fullNameOfScope JediModel.Gen.C18.mapping JediModel.Gen.C18.moduleJoin wCollide 0 = some ["K", "K"] ∧
+    qualnameOf wCollide 2 = ["K", "K"] ∧ qualname wCollide wCollide.fuel 2 = ["K", "K"] := by decide
+
+/-- the statements of the `get_qualified_names` family the model transcribes are the ones in the source:
+tree names append their own spelling to the qualified names of their context; a class / function below a
+class appends `py__name__()` to the class's, at module level it is `(py__name__(),)`, elsewhere `None`;
+methods go through `class_context`; `full_name` asks for the module names and joins with `'.'`. -/
+theorem qualified_name_shapes :
+    JediModel.Gen.C18.moduleJoin = ["module_names", "qualified_names"] ∧
+    JediModel.Gen.C18.treeNameQual = ["parent_names = self.parent_context.get_qualified_names()",
+      "if parent_names is None", "return None", "end", "return parent_names + (self.tree_name.value,)"] ∧
+    JediModel.Gen.C18.treeNameDelegates = "return super().get_qualified_names(include_module_names)" ∧
+    JediModel.Gen.C18.valueNameQual = ["return self._value.get_qualified_names()"] ∧
+    JediModel.Gen.C18.funcClassQual = ["if self.parent_context.is_class()",
+      "n = self.parent_context.get_qualified_names()", "if n is None", "return None", "end",
+      "return n + (self.py__name__(),)", "else", "if self.parent_context.is_module()",
+      "return (self.py__name__(),)", "else", "return None", "end", "end"] ∧
+    JediModel.Gen.C18.methodQual = ["names = self.class_context.get_qualified_names()", "if names is None",
+      "return None", "end", "return names + (self.py__name__(),)"] ∧
+    JediModel.Gen.C18.abstractContextQual = ["return ()"] ∧
+    JediModel.Gen.C18.valueContextQual = ["return self._value.get_qualified_names()"] ∧
+    JediModel.Gen.C18.fullNameCall = ["self._name.get_qualified_names(include_module_names=True)"] ∧
+    JediModel.Gen.C18.fullNameReturns = ["'.'.join(names)", "None", "None"] := by decide
 
 open JediModel.Nesting.Witness in
 /-- counter-witness: in a module called `macpath` (a key of `BaseName._mapping`) the class `K` has
 the full name `os.path.K`; Python's is `macpath.K`.  Reproduced on the real code. -/
 theorem mapped_module_witness :
-    fullNameOfLeaf JediModel.Gen.C18.mapping wMapped 1 = some ["os.path", "K"] ∧
+    fullNameOfLeaf JediModel.Gen.C18.mapping JediModel.Gen.C18.moduleJoin wMapped 1 = some ["os.path", "K"] ∧
       wMapped.modNames = some ["macpath"] ∧ qualnameOf wMapped 1 = ["K"] ∧
       JediModel.Gen.C18.mapping.lookup "macpath" = some "os.path" := by decide
 
